@@ -12,7 +12,9 @@
 // (plus "the entry expired": state 0/0/0). The lemmas below are the induction over that sequence; the step
 // functions fwCurr/fwExp/swCurr/swPrev/swExp are the ones the handlers are verified against (clauses
 // `window-step-is-the-lemma-step`), so the lemmas are about the code, not about a separate model.
-// Scope: constant MaxFunc value `max`, no Skip* options (a skip section decrements the counter after the fact).
+// Scope: constant MaxFunc value `max`. Without Skip* options: the exact count (fwInv). With Skip* options (a skip
+// section takes the request's hit back after the fact): the upper bound (fwInvSkip, lemmas *-with-skip-*), which rests on
+// "a hit is taken back only from the window it was counted in" (handler clauses hit-taken-back-only-...).
 //
 // adm = number of requests of the key admitted since the last roll-over (ghost admission counter).
 
@@ -26,15 +28,24 @@ package limiter
 //@ fn fwExp(exp int, ts int, win int) int = ite(exp == 0 || ts >= exp, ts + win, exp)
 //@ fn fwAdmitted(curr int, exp int, ts int, max int) bool = fwCurr(curr, exp, ts) <= max
 //@ fn fwAdm(adm int, curr int, exp int, ts int, max int) int = ite(fwRoll(exp, ts), 0, adm) + ite(fwAdmitted(curr, exp, ts, max), 1, 0)
+// the skip section of a request counted in the window that ends at `counted`, on entry (curr, exp)
+//@ fn fwUncount(curr int, exp int, counted int) int = ite(exp == counted && curr > 0, curr - 1, curr)
 // invariant between sections: the admission counter is the hit counter capped at max (0 for a negative max)
 //@ fn cap0(max int) int = ite(max > 0, max, 0)
 //@ fn fwInv(adm int, curr int, max int) bool = curr >= 0 && adm == ite(curr <= max, curr, cap0(max))
+// ... with Skip* options: adm = number of requests admitted in this window and not taken back. Rejected requests are
+// hits as well and are never taken back, so only the upper bound survives (a slot freed by an un-count that follows a
+// rejection is not handed out again in that window: the limiter then rejects more than it must, never admits more).
+//@ fn fwInvSkip(adm int, curr int, max int) bool = 0 <= adm && adm <= curr && adm <= cap0(max)
 
 // ---- sliding window: one step on entry (prev, curr, exp) -------------------------------------------------------
 //@ fn swRoll(exp int, ts int) bool = exp != 0 && ts >= exp
 //@ fn swCurr(curr int, exp int, ts int) int = ite(exp != 0 && ts >= exp, 1, curr + 1)
 //@ fn swPrev(prev int, curr int, exp int, ts int) int = ite(exp != 0 && ts >= exp, curr, prev)
 //@ fn swExp(exp int, ts int, win int) int = ite(exp == 0, ts + win, ite(ts >= exp, ite(ts - exp >= win, ts + win, exp + win), exp))
+// the skip section of a request counted in the window that ends at `counted`, on entry (prev, curr, exp)
+//@ fn swUncountCurr(curr int, exp int, counted int) int = ite(exp == counted && curr > 0, curr - 1, curr)
+//@ fn swUncountPrev(prev int, exp int, counted int, win int) int = ite(exp == counted + win && prev > 0, prev - 1, prev)
 //@ fn swAdm(adm int, exp int, ts int, admitted bool) int = ite(swRoll(exp, ts), 0, adm) + ite(admitted, 1, 0)
 //@ fn swInv(adm int, curr int) bool = 0 <= adm && adm <= curr
 
@@ -50,6 +61,29 @@ package limiter
 //@   ensures fixed-at-most-max-admitted-per-window: forallI(adm, forallI(curr, forallI(max, fwInv(adm, curr, max) ==> adm <= cap0(max))))
 //@   ensures fixed-rejected-only-when-budget-used-up: forallI(adm, forallI(curr, forallI(exp, forallI(ts, forallI(max, fwInv(adm, curr, max) && !fwAdmitted(curr, exp, ts, max) ==> fwAdm(adm, curr, exp, ts, max) == cap0(max))))))
 //@   ensures fixed-counter-restarts-only-at-window-end: forallI(curr, forallI(exp, forallI(ts, fwCurr(curr, exp, ts) != curr + 1 ==> exp == 0 || ts >= exp)))
+//   the window end identifies the window (what the skip sections rely on): a step leaves the end alone unless it
+//   rolls the window over, and a roll-over moves it forward
+//@   ensures fixed-window-end-identifies-the-window: forallI(exp, forallI(ts, forallI(win, win > 0 && exp > 0 ==> (fwExp(exp, ts, win) == exp <==> !fwRoll(exp, ts)) && fwExp(exp, ts, win) >= exp)))
+//@   ensures fixed-uncount-leaves-later-windows-alone: forallI(curr, forallI(exp, forallI(ts, forallI(win, forallI(c2, win > 0 && exp > 0 && fwRoll(exp, ts) ==> fwUncount(c2, fwExp(exp, ts, win), exp) == c2)))))
+//@   ensures fixed-uncount-keeps-the-entry-well-formed: forallI(curr, forallI(exp, forallI(counted, curr >= 0 ==> fwUncount(curr, exp, counted) >= 0 && fwUncount(curr, exp, counted) <= curr && fwUncount(curr, exp, counted) >= curr - 1)))
+//   the counting theorem with Skip* options: a step keeps the bound, an un-count in the request's own window (the request
+//   is one of the adm admitted ones: adm >= 1) keeps it, and an un-count by a request of an earlier window does not touch
+//   the entry - which is what keeps `adm <= curr` (before fix fd0e10e such an un-count lowered curr below adm, and the
+//   window admitted more than max)
+//@   ensures fixed-with-skip-empty-entry-starts-a-window: forallI(max, fwInvSkip(0, 0, max))
+//@   ensures fixed-with-skip-step-keeps-the-count: forallI(adm, forallI(curr, forallI(exp, forallI(ts, forallI(max, fwInvSkip(adm, curr, max) ==> fwInvSkip(fwAdm(adm, curr, exp, ts, max), fwCurr(curr, exp, ts), max))))))
+//@   ensures fixed-with-skip-uncount-in-its-own-window-keeps-the-count: forallI(adm, forallI(curr, forallI(exp, forallI(max, fwInvSkip(adm, curr, max) && adm >= 1 ==> fwInvSkip(adm - 1, fwUncount(curr, exp, exp), max)))))
+//@   ensures fixed-with-skip-uncount-by-a-request-of-another-window-changes-nothing: forallI(curr, forallI(exp, forallI(counted, exp != counted ==> fwUncount(curr, exp, counted) == curr)))
+//@   ensures fixed-with-skip-at-most-max-admitted-and-kept-per-window: forallI(adm, forallI(curr, forallI(max, fwInvSkip(adm, curr, max) ==> adm <= cap0(max))))
 //@   ensures sliding-empty-entry-starts-a-window: swInv(0, 0)
+//@   ensures sliding-window-end-identifies-the-window: forallI(exp, forallI(ts, forallI(win, win > 0 && exp > 0 ==> (swExp(exp, ts, win) == exp <==> !swRoll(exp, ts)) && swExp(exp, ts, win) >= exp)))
+//@   ensures sliding-one-roll-over-moves-the-end-by-a-window-or-more: forallI(exp, forallI(ts, forallI(win, win > 0 && exp > 0 && swRoll(exp, ts) ==> swExp(exp, ts, win) >= exp + win && (swExp(exp, ts, win) == exp + win <==> ts - exp < win))))
+//@   ensures sliding-two-roll-overs-move-the-end-by-more-than-a-window: forallI(exp, forallI(ts, forallI(win, forallI(ts2, win > 0 && exp > 0 && swRoll(exp, ts) && swRoll(swExp(exp, ts, win), ts2) ==> swExp(swExp(exp, ts, win), ts2, win) > exp + win))))
+//   sliding with Skip* options: swInv (admitted-and-kept <= hits) survives an un-count in the request's own window; after
+//   one roll-over the same holds for the previous hits (admPrev <= prev); any other un-count changes nothing
+//@   ensures sliding-with-skip-uncount-in-its-own-window-keeps-the-count: forallI(adm, forallI(curr, forallI(exp, swInv(adm, curr) && adm >= 1 ==> swInv(adm - 1, swUncountCurr(curr, exp, exp)))))
+//@   ensures sliding-with-skip-uncount-after-one-roll-over-keeps-the-previous-count: forallI(adm, forallI(prev, forallI(exp, forallI(win, swInv(adm, prev) && adm >= 1 ==> swInv(adm - 1, swUncountPrev(prev, exp + win, exp, win))))))
+//@   ensures sliding-with-skip-uncount-by-a-request-of-another-window-changes-nothing: forallI(prev, forallI(curr, forallI(exp, forallI(counted, forallI(win, (exp != counted ==> swUncountCurr(curr, exp, counted) == curr) && (exp != counted + win ==> swUncountPrev(prev, exp, counted, win) == prev))))))
+//@   ensures sliding-uncount-after-one-roll-over-takes-the-hit-from-where-the-roll-over-put-it: forallI(prev, forallI(curr, forallI(exp, forallI(ts, forallI(win, win > 0 && exp > 0 && curr > 0 && swRoll(exp, ts) && ts - exp < win ==> swUncountPrev(swPrev(prev, curr, exp, ts), swExp(exp, ts, win), exp, win) == curr - 1 && swUncountCurr(swCurr(curr, exp, ts), swExp(exp, ts, win), exp) == swCurr(curr, exp, ts))))))
 //@   ensures sliding-step-keeps-the-count: forallI(adm, forallI(curr, forallI(exp, forallI(ts, swInv(adm, curr) ==> swInv(swAdm(adm, exp, ts, true), swCurr(curr, exp, ts)) && swInv(swAdm(adm, exp, ts, false), swCurr(curr, exp, ts))))))
 //@   ensures sliding-weighted-previous-plus-admitted-at-most-max: forallI(adm, forallI(curr, forallI(w, forallI(max, swInv(adm, curr) && w + curr <= max ==> w + adm <= max))))
